@@ -55,7 +55,14 @@ func (c *Constant) Init(n *onnx.NodeProto) error {
 
 // Apply applies the constant operator.
 func (c *Constant) Apply(_ []tensor.Tensor) ([]tensor.Tensor, error) {
-	return []tensor.Tensor{c.value}, nil
+	// The value can share its storage with the attribute of the node, i.e. with the model.
+	// Hand out a copy, the receiver is free to modify its tensor.
+	out, ok := c.value.Clone().(tensor.Tensor)
+	if !ok {
+		return nil, ops.ErrTypeAssert("tensor.Tensor", c.value.Clone())
+	}
+
+	return []tensor.Tensor{out}, nil
 }
 
 // ValidateInputs validates the inputs that will be given to Apply for this operator.
